@@ -20,6 +20,13 @@ extern "C" ssize_t __wrap_read(int fd, void* buf, size_t n) {
   if (!p.active || fd != p.fd) return __real_read(fd, buf, n);
   uint64_t lim = p.lim.next();
   size_t req = std::min<uint64_t>(n, lim);
+  if (p.eof_after != UINT64_MAX) {
+    if (p.delivered >= p.eof_after) {
+      p.calls++;
+      return 0; // end of file reached earlier than the size reported by fstat
+    }
+    req = std::min<uint64_t>(req, p.eof_after - p.delivered);
+  }
   ssize_t r = __real_read(fd, buf, req);
   p.calls++;
   if (r > 0) {
@@ -124,6 +131,80 @@ static void run_file_roundtrip(const Case& c) {
   VCHECK(open_fds() == before, "load-save-fd-leak", "save_file/load_file changed the set of open descriptors");
   ctx().cls(size_class(size));
   ::unlink(path.c_str());
+}
+
+// ---------------------------------------------------------------- load_file on a source that ends early
+//
+// The file shrinks between load_file's fstat and its read (or st_size overstates the content, as for sysfs files):
+// read() reaches end-of-file after `eof` bytes although fstat reported `size`. load_file must throw or return exactly
+// the bytes that were delivered - never a result padded to the stat size, never fewer than delivered.
+// n = [size, seed, eof, k, plan_seed]
+static void run_load_shrunk(const Case& c) {
+  uint64_t size = c.u(0), seed = c.u(1), eof = c.u(2);
+  if (size > (1 << 20) || eof >= size) throw std::logic_error("case outside domain");
+  Limiter lim;
+  lim.k = c.u(3);
+  lim.seed = c.u(4);
+  std::string d = vg::expand(seed, size);
+  // avoid content that is zero at the cut: a padded result must differ from the delivered prefix
+  for (auto& ch : d)
+    if (ch == 0) ch = 1;
+  std::string path = scratch() + "/shrunk.bin";
+  ::unlink(path.c_str());
+  write_file_raw(path, d);
+  std::set<int> before = open_fds();
+  struct Arm {
+    ~Arm() { plan().disarm(); }
+  } arm;
+  int probe = ::open("/dev/null", O_RDONLY);
+  __real_close(probe);
+  plan().arm(probe, lim, eof);
+  bool threw = false;
+  std::string back;
+  try {
+    back = phosg::load_file(path);
+  } catch (const std::runtime_error&) {
+    threw = true;
+  }
+  uint64_t calls = plan().calls;
+  plan().disarm();
+  VCHECK(calls >= 1, "harness-plan-not-applied", "the read plan did not see load_file's read");
+  if (!threw) {
+    VCHECK(back.size() <= eof, "load-file-padded", "load_file returned ", back.size(), " bytes although the file ended after ", eof, " (stat size ", size, "): ", first_diff(back, d.substr(0, eof)));
+    VCHECK(back == d.substr(0, eof), "load-file-truncated-silently", "load_file returned ", back.size(), " of the ", eof, " bytes delivered before end of file");
+  }
+  VCHECK(open_fds() == before, "load-shrunk-fd-leak", "load_file changed the set of open descriptors");
+  ctx().cls(threw ? "load_shrunk:threw" : "load_shrunk:returned-delivered-prefix");
+  ctx().nontrivial_case();
+  ::unlink(path.c_str());
+}
+
+static Case gen_load_shrunk() {
+  uint64_t size;
+  switch (vg::below(4)) {
+    case 0: size = 1 + vg::below(16); break;
+    case 1: size = vg::pick<uint64_t>({255, 256, 257, 4095, 4096, 4097, 16383, 16384, 16385, 65536}); break;
+    default: size = 1 + vg::scaled(200000); break;
+  }
+  uint64_t eof;
+  switch (vg::below(4)) {
+    case 0: eof = 0; break;
+    case 1: eof = size - 1; break;
+    default: eof = vg::below(size); break;
+  }
+  uint64_t k = vg::coin() ? 0 : 1 + vg::below(5000);
+  return Case("load_shrunk").N(size).N(vg::u64()).N(eof).N(k).N(vg::u64());
+}
+
+static void enum_load_shrunk(Enum& e) {
+  uint64_t idx = 0;
+  for (uint64_t size = 1; size <= 12 && !e.stop; size++)
+    for (uint64_t eof = 0; eof < size; eof++)
+      for (uint64_t k : {0, 1, 3}) {
+        if (!e.mine(idx++)) continue;
+        e.exec(Case("load_shrunk").N(size).N(size * 31 + eof).N(eof).N(k).N(7));
+      }
+  e.complete("every (size 1..12, end-of-file position < size) x chunk limit {none, 1, 1..3}");
 }
 
 // ---------------------------------------------------------------- read_all
@@ -1379,6 +1460,7 @@ int main(int argc, char** argv) {
   signal(SIGPIPE, SIG_IGN);
   std::vector<SubCheck> checks;
   checks.push_back({"file_roundtrip", run_file_roundtrip, gen_file_roundtrip, 4000, 30000, 100, enum_file_roundtrip});
+  checks.push_back({"load_shrunk", run_load_shrunk, gen_load_shrunk, 1500, 15000, 100, enum_load_shrunk});
   checks.push_back({"read_all", run_read_all, gen_read_all, 8000, 80000, 100, enum_read_all});
   checks.push_back({"fgets", run_fgets, gen_fgets, 8000, 80000, 100, enum_fgets});
   checks.push_back({"readx", run_readx, gen_readx, 8000, 80000, 100, enum_readx});
